@@ -70,22 +70,19 @@ def wDecompress (c : Bytes) : Option Bytes :=
   if c = [9, 8, 7] then some [1, 2, 3, 4] else if c = [7, 7, 1] then some [5, 6] else none
 def wBlocks : List Bytes := [[1, 2, 3, 4], [5, 6]]
 
-theorem wCodecOK : CodecOK wCompress wDecompress 4 wBlocks where
-  bytes := by decide
-  small := by decide
-  roundtrip := by decide
-  prefix_fails := by
-    intro b hb p hp hne
-    have hl : (wCompress b).length = 3 := by
-      simp only [wBlocks, List.mem_cons, List.not_mem_nil, or_false] at hb
-      rcases hb with rfl | rfl <;> rfl
-    have hlt : p.length < 3 := by
-      have hle := List.IsPrefix.length_le hp
-      rcases Nat.lt_or_eq_of_le hle with h | h
-      · omega
-      · exact absurd (List.IsPrefix.eq_of_length hp h) hne
-    unfold wDecompress
-    rw [if_neg (by intro e; rw [e] at hlt; simp at hlt), if_neg (by intro e; rw [e] at hlt; simp at hlt)]
+theorem wCodecOK : CodecOK wCompress wDecompress 4 wBlocks := by
+  apply CodecOK.of_raises (by decide) (by decide) (by decide)
+  intro b hb p hp hne
+  have hl : (wCompress b).length = 3 := by
+    simp only [wBlocks, List.mem_cons, List.not_mem_nil, or_false] at hb
+    rcases hb with rfl | rfl <;> rfl
+  have hlt : p.length < 3 := by
+    have hle := List.IsPrefix.length_le hp
+    rcases Nat.lt_or_eq_of_le hle with h | h
+    · omega
+    · exact absurd (List.IsPrefix.eq_of_length hp h) hne
+  unfold wDecompress
+  rw [if_neg (by intro e; rw [e] at hlt; simp at hlt), if_neg (by intro e; rw [e] at hlt; simp at hlt)]
 
 -- three uint16 items in two blocks (4 + 2 bytes), header UInt32, both encoders: the complete stream is read back …
 example : wBlocks.flatten = itemsToBytes 2 [513, 1027, 1541] := by decide
@@ -109,8 +106,15 @@ example (avail : List Nat) (hp : avail <+: encodeCompE 4 rawE wCompress 4 2 wBlo
     (by decide) (by decide) (by decide) (by decide) (by decide) (by decide) (by decide) wCodecOK hp hne
 -- the writer's block partition: `chunks 4` of the six payload bytes are these two blocks
 example : chunks 4 (itemsToBytes 2 [513, 1027, 1541]) = wBlocks := by decide
--- the codec hypothesis "a strict prefix raises" is necessary: a codec that accepts a truncated block lets a cut
--- array through with the right length (not with the right values)
+-- an LZ4-like codec (a truncated block decodes to FEWER bytes instead of raising) is still covered by `CodecOK`:
+-- the array then comes out short and is rejected
+example :
+    let dec : Bytes → Option Bytes := fun c => if c = [9, 8] then some [1, 2] else wDecompress c
+    checkDeclared 2 3 (compReadE 4 rawE dec ([2, 0, 0, 0, 4, 0, 0, 0, 2, 0, 0, 0, 3, 0, 0, 0, 3, 0, 0, 0] ++ [9, 8])) = none ∧
+    checkDeclared 1 6 (compReadE 4 rawE dec ([1, 0, 0, 0, 4, 0, 0, 0, 0, 0, 0, 0, 3, 0, 0, 0] ++ [9, 8])) = none := by
+  decide +kernel
+-- the codec hypothesis is necessary: a codec that returns as many bytes as the block has for a truncated block lets
+-- a cut array through with the right length (not with the right values)
 example :
     let dec : Bytes → Option Bytes := fun c => if c = [9, 8] then some [0, 0, 0, 0, 0, 0] else wDecompress c
     checkDeclared 2 3 (compReadE 4 rawE dec ([1, 0, 0, 0, 6, 0, 0, 0, 0, 0, 0, 0, 3, 0, 0, 0] ++ [9, 8])) =
